@@ -63,8 +63,8 @@ def value_outcome(v, route):
     return 'mixed', str(res)
 
 
-def text_case(toks, text, route='parse'):
-    c = pc.record_text(toks, text, route, 'c02')
+def text_case(toks, text, route='parse', lenv=pc.ROLE_ENV):
+    c = pc.record_text(toks, text, route, 'c02', lenv)
     c['extra_allow'] = 0
     if not c['raised']:
         try:
@@ -80,6 +80,8 @@ def key_of(c):
         return 'value:%s:%s' % (c['vclass'], c['outcome'])
     if c['raised']:
         return 'text:raises'
+    if c['kind'] == 'list':
+        return 'list-rule:decision'
     return 'text:non-sentence-allows'
 
 
@@ -171,6 +173,12 @@ def run(ctx):
                 val[0] = val[0][0]
             c = pc.record_list(outer, val, ctx.rng.choice(['parse', 'load', 'enforce']), 'c02')
             cases.append(c)
+    # a list member that IS kind:match must not be taken for malformed: one whose match contains further colons
+    colon_env = lang.LeafEnv(('colon',), 0)
+    for outer in ([[L1]], [[L1, TT]], [[B], [L1]], [[L1], [lang.LEAF0 + 2]], [[L1, lang.LEAF0 + 2]]):
+        for route in ('parse', 'load', 'enforce'):
+            val = [[('nocolon' if t == B else lang.core_text(t, None, colon_env.text)) for t in inner] for inner in outer]
+            cases.append(pc.record_list(outer, val, route, 'c02', colon_env))
     n_text = len(cases)
     # non-string rule values
     for vclass, v in VALUES:
@@ -214,6 +222,8 @@ def run(ctx):
                 'rule value %r must always allow, outcome %s' % (c['_value'], c['outcome'])
         elif c['raised']:
             what = 'loading or evaluating a rule string raised %s' % c.get('_exc')
+        elif c['kind'] == 'list':
+            what = 'a list rule does not decide as the OR of the ANDs of its members (a member that is not kind:match is "!", one that is, is that check)'
         else:
             what = 'a string that is not a sentence of the rule language grants access'
         ctx.violation(key_of(c), what, pc.describe(c))
